@@ -10,7 +10,13 @@ Two parts, both run against the working tree of the repository on every run:
     * kind "recenter": `Module.recenter_rectangles` on generated multi-rectangle hard modules;
     * kind "fixrule": `optimize_allocation` is run up to (not including) the solver call and the table
       `model.a` (which entries are Python floats, with which value, which are GEKKO variables) must equal
-      `model_a` / `get_a` / `neighbours` / `problem_modules` of the model.
+      `model_a` / `get_a` / `neighbours` / `problem_modules` of the model;
+    * kind "system" (harness/props/c10_sys.py): `optimize_allocation` is run up to the solver call and the WHOLE
+      constraint system it handed to GEKKO (variables with bounds, every (in)equation; captured from the GEKKO
+      object, g.sum objects substituted away, variables identified through model.a / model.x / model.y / model.d,
+      never through their names) must equal `gen_system` of coq/Glb/System.v, equation by equation as canonical
+      polynomials; the direct oracle checks on the captured system that every cell's occupancy is bounded by an
+      inequality and, where it is not, asks the real solver for a concrete over-occupied answer.
 (b) runtime exploration, kind "run": real `glbfloor(...)` runs (GEKKO's local solver) on small generated
     instances.  Every call of `optimize_allocation` / `extract_solution` inside the run is recorded and
     replayed through the model (the recorded solver values are the model's `sol`), the solver contract
@@ -25,8 +31,9 @@ from fractions import Fraction as F
 from harness import core, fr
 from harness.core import gq, gbool, gstr, glist, gopt
 from harness.props import alloc_common as ac
+from harness.props import c10_sys as cs
 
-HEADER = """From FrameModel Require Import Num.QcTac Geometry.Rect Cases.Cmp Alloc.Alloc Cases.CmpAlloc Glb.Extract Cases.CmpC10.
+HEADER = """From FrameModel Require Import Num.QcTac Geometry.Rect Cases.Cmp Alloc.Alloc Cases.CmpAlloc Glb.Extract Cases.CmpC10 Glb.System Glb.SystemFacts Cases.CmpC10Sys.
 Open Scope Qc_scope."""
 
 TOL = F(1, 10 ** 6)      # the tolerance of the direct oracle / SolOK monitor ("within solver tolerance")
@@ -48,8 +55,27 @@ ASSUMPTIONS = [
     "on overlap areas); ratios must be in [0,1] exactly (the Allocation constructor enforces it)",
     "exact stream: dyadic coordinates and solver values, thresholds whose 1 - t is exact in binary64; rectangles of movable "
     "hard modules are compared exactly when the module area is a power of two and within 16 roundings otherwise",
-    "names f'{m}_{r}' of the fake one-rectangle modules are modelled literally (decimal index), so a netlist in which a "
-    "hard module A and another module A_0 coexist is modelled as the code behaves; such netlists are not generated for runs",
+    "names f'{m}_{r}' of the fake one-rectangle modules are modelled literally (decimal index); the model mirrors the code "
+    "REPAIRED by fixes/C10-fake-name-clash.diff (a netlist module bearing such a name: AssertionError = gen_system None); on "
+    "the unrepaired tree such netlists are generated (about 1 in 12 system cases, 1 in 16 runs) and reported as the open "
+    "known finding C10/fake-name-clash",
+    "the constraint system: C10_system_feasible_solok / C10_glb_from_system replace the hypothesis SolOK by 'the solver "
+    "returned a point feasible for the system it was given' (bounds exactly, every (in)equation within tol; SolOK then holds "
+    "with tolerance tol * (1 + number of movable hard modules)); that IPOPT's answer is feasible within tol is still not "
+    "proved - it is monitored (solok_*). The objective (g.Minimize) is not part of the model; area ** (3/2) is an "
+    "uninterpreted function (the floats the code computed are handed to the model by the harness); terminals and "
+    "dispersion functions other than the default x^2 + y^2 are not modelled",
+    "system comparison: coefficients within 256 roundings (2^-53 each) at the magnitude of the equation (the code multiplies "
+    "and divides Python floats before GEKKO sees them; exact for dyadic inputs); equations compared as a multiset of "
+    "canonical polynomials (order of equations / terms, position of constants, a == b vs b == a do not matter); the "
+    "initial values of the variables (value=) are not compared (no clause of the property depends on them)",
+    "the probe: when (and only when) the captured system leaves the occupancy of a cell unbounded the real solver is run "
+    "on the GEKKO model the code built - first with the code's objective, then with the objective replaced by 'maximise "
+    "the occupancy of that cell' (variables, bounds and equations untouched) - and the property is checked on what the real "
+    "extract_solution returns; such a failure is keyed .../probe/... and says so in its text. On a tree whose system bounds "
+    "every cell the probe never runs",
+    "module names that differ only in letter case make GEKKO refuse the model ('Duplicate Names': it lower-cases variable "
+    "names) - nothing is returned; such netlists are not generated",
 ]
 
 
@@ -513,8 +539,14 @@ def gen_run(rng):
             "max_iter": rng.choice([1, 1, 2])}
 
 
-def run_run(case):
-    """A real glbfloor run; every optimize_allocation / extract_solution call is recorded."""
+class _ProbeDone(Exception):
+    pass
+
+
+def run_run(case, probe=None):
+    """A real glbfloor run; every optimize_allocation / extract_solution call is recorded.
+    probe = (iteration index, function(model, die, cells, threshold, original solve) -> result): at that optimisation
+    the function is called instead of the solver, its result is returned as obs['probe'] and the run is abandoned."""
     from frame.geometry.geometry import Rectangle
     from frame.netlist.netlist import Netlist
     from frame.die.die import Die
@@ -522,12 +554,45 @@ def run_run(case):
     import copy
     Rectangle.undefine_epsilon()
     iters = []
-    o_opt, o_ext = opt.optimize_allocation, opt.extract_solution
+    o_opt, o_ext, o_solve = opt.optimize_allocation, opt.extract_solution, opt.solve_and_extract_solution
+    probed = {}
+
+    def w_solve(model, die, cells, threshold, *a, **kw):
+        it = iters[-1]
+        try:
+            it["mods_before"] = [module_obs(m) for m in die.netlist.modules]
+            it["t"] = threshold
+            it["die_rect"] = fr.rect_obs(die.bounding_box)
+            it["cap"] = cs.capture(model, len(cells))
+            it["areas"] = {m.name: m.area() for m in die.netlist.modules}
+            it["pow32"] = [[m.area(), m.area() ** (3 / 2)] for m in die.netlist.modules if not m.is_hard and m.area() > 0]
+            it["edges"] = [[m.name for m in e.modules] for e in die.netlist.edges]
+        except Exception as e:                      # the capture must never change what the run does
+            it["cap_error"] = f"{type(e).__name__}: {e}"
+        if probe is not None and len(iters) - 1 == probe[0]:
+            probed["result"] = probe[1](model, die, cells, threshold, o_solve)
+            raise _ProbeDone()
+        return o_solve(model, die, cells, threshold, *a, **kw)
 
     def w_opt(die, allocation, *a, **kw):
         iters.append({"in_cells": ac.alloc_obs(allocation)["cells"],
                       "eps": Rectangle.distance_epsilon(), "aeps": Rectangle.area_epsilon()})
-        return o_opt(die, allocation, *a, **kw)
+        it = iters[-1]
+        try:
+            it["mods_before"] = [module_obs(m) for m in die.netlist.modules]
+            it["t"] = a[1] if len(a) > 1 else kw.get("threshold")
+            it["die_rect"] = fr.rect_obs(die.bounding_box)
+            it["areas"] = {m.name: m.area() for m in die.netlist.modules}
+            it["pow32"] = [[m.area(), m.area() ** (3 / 2)] for m in die.netlist.modules if not m.is_hard and m.area() > 0]
+            it["edges"] = [[m.name for m in e.modules] for e in die.netlist.edges]
+        except Exception as e:
+            it["cap_error"] = f"{type(e).__name__}: {e}"
+        try:
+            return o_opt(die, allocation, *a, **kw)
+        except (AssertionError, ZeroDivisionError, KeyError) as e:
+            if "cap" not in it:
+                it["build_raised"] = type(e).__name__       # raised while the system was being built
+            raise
 
     def w_ext(model, die, cells, threshold):
         it = iters[-1]
@@ -547,7 +612,7 @@ def run_run(case):
         it["out"] = {"cells": ac.alloc_obs(out[1])["cells"], "mods": [module_obs(m) for m in out[0].netlist.modules]}
         return out
 
-    opt.optimize_allocation, opt.extract_solution = w_opt, w_ext
+    opt.optimize_allocation, opt.extract_solution, opt.solve_and_extract_solution = w_opt, w_ext, w_solve
     try:
         try:
             nl = Netlist(copy.deepcopy(case["netlist"]))
@@ -562,7 +627,11 @@ def run_run(case):
             return {"status": "invalid-input", "err": str(e)[:200], "iters": []}
         mods0 = [module_obs(m) for m in nl.modules]
         try:
-            d2, alloc = opt.glbfloor(die, float(case["t"]), float(case["alpha"]), max_iter=case["max_iter"])
+            tt, aa = (case["t"], case["alpha"]) if case.get("raw") else (float(case["t"]), float(case["alpha"]))
+            d2, alloc = opt.glbfloor(die, tt, aa, max_iter=case["max_iter"])
+        except _ProbeDone:
+            return {"status": "probed", "probe": probed.get("result"), "iters": iters, "mods0": mods0,
+                    "die": [die.width, die.height]}
         except Exception as e:          # the optimiser did not return (solver failure, rejected allocation ...)
             return {"status": "raised", "err": f"{type(e).__name__}: {str(e)[:160]}", "iters": iters, "mods0": mods0,
                     "die": [die.width, die.height]}
@@ -570,12 +639,13 @@ def run_run(case):
                 "cells": ac.alloc_obs(alloc)["cells"], "mods": [module_obs(m) for m in d2.netlist.modules],
                 "fixed_regions": [fr.rect_obs(r) for r in die.fixed_regions]}
     finally:
-        opt.optimize_allocation, opt.extract_solution = o_opt, o_ext
+        opt.optimize_allocation, opt.extract_solution, opt.solve_and_extract_solution = o_opt, o_ext, o_solve
         Rectangle.undefine_epsilon()
 
 
 def run_impl(case):
-    return {"extract": run_extract, "recenter": run_recenter, "fixrule": run_fixrule, "run": run_run}[case["kind"]](case)
+    return {"extract": run_extract, "recenter": run_recenter, "fixrule": run_fixrule, "run": run_run,
+            "system": cs.run_system}[case["kind"]](case)
 
 
 # ======================================================================================
@@ -659,16 +729,32 @@ def to_coq(case, obs):
         if bad:
             return "false"
         return table_expr(rows, case["eps"], case["t"], obs["cells"], case["mods"])
+    if kind == "system":
+        return cs.to_coq_system(case, obs)
     # real run: every recorded iteration is replayed through the model
     parts = []
     for it in obs.get("iters", []):
+        tie = "mods_before" in it and cs.float_tie(it)
+        if tie:
+            cs.bump("run_optimisations_skipped_float_tie")
+        if tie:
+            pass
+        elif "cap_error" in it:
+            parts.append("false")
+        elif "cap" in it and "mods_before" in it:
+            p = cs.run_system_expr(it, cs.has_clash(case))
+            if p:
+                parts.append(p)
+        elif it.get("build_raised") and "mods_before" in it:
+            parts.append(cs.run_raises_expr(it))
         if "rows" not in it:
             continue                # the solver raised before extract_solution was reached
         mods = it["mods_before"]
         rows, bad = decided_rows(it["rows"], mods)
         if bad:
             parts.append("false")
-        parts.append(table_expr(rows, it["eps"], it["t"], it["in_cells"], mods))
+        if not tie:
+            parts.append(table_expr(rows, it["eps"], it["t"], it["in_cells"], mods))
         parts.append(extract_expr(mods, [c["rect"] for c in it["in_cells"]],
                                   {m["name"]: it["a"][m["name"]] for m in mods}, it["x"], it["y"], it["t"], it["aeps"],
                                   it.get("out"), obs["die"], exact_ok=False, k=64))
@@ -842,16 +928,20 @@ def oracle(case, obs):
             if any(m["name"] == k and m["fixed"] for m in case["mods"]) and any(e[0] != "c" for e in row):
                 return f"fixed/not-constant: allocation of fixed module {k} is an optimisation variable"
         return None
+    if kind == "system":
+        return cs.oracle_system(case, obs)
     # real run
     if obs["status"] != "returned":
-        return None
+        return cs.oracle_run_systems(case, obs)
     if not obs["iters"]:
         return None
     r = check_result(obs["die"], obs["mods0"], obs["mods"], obs["cells"], TOL)
-    return f"{r[0]}: {r[1]}" if r else None
+    return f"{r[0]}: {r[1]}" if r else cs.oracle_run_systems(case, obs)
 
 
 def failure_key(case, why):
+    if cs.has_clash(case):
+        return "C10/fake-name-clash"
     w = str(why or "")
     head = w.split(":")[0]
     if "/" in head and len(head) < 40:
@@ -860,6 +950,8 @@ def failure_key(case, why):
 
 
 def shrink(case):
+    if cs.has_clash(case):
+        return                      # the open finding C10/fake-name-clash: its minimal input is in the corpus
     if case["kind"] == "run":
         if case["max_iter"] > 1:
             yield dict(case, max_iter=1)
@@ -890,9 +982,13 @@ def shrink(case):
         for i in range(len(case["rects"])):
             if len(case["rects"]) > 1:
                 yield dict(case, rects=case["rects"][:i] + case["rects"][i + 1:])
+    elif case["kind"] == "system":
+        yield from cs.shrink_system(case)
 
 
 def dist_key(case):
+    if case["kind"] == "system":
+        return "system/" + str(case.get("sub", ""))
     return case["kind"] + "/" + str(case.get("style", case.get("init", [""])[0] if case["kind"] == "run" else ""))
 
 
@@ -901,7 +997,7 @@ def nontrivial(case):
         return len(case["cells"]) >= 2 and len(case["mods"]) >= 2
     if case["kind"] == "recenter":
         return len(case["rects"]) >= 2
-    if case["kind"] == "fixrule":
+    if case["kind"] in ("fixrule", "system"):
         return len(case["cells"]) >= 2
     return len(case["netlist"]["Modules"]) >= 3
 
@@ -913,7 +1009,8 @@ def run(ctx, out, replay=None):
     tempfile.tempdir = str(tmp)           # GEKKO(remote=False) creates its model directory with tempfile.mkdtemp
     try:
         quick = ctx.quick()
-        n_ext, n_rec, n_fix, n_run = (600, 150, 150, 14) if quick else (6000, 1500, 1500, 120)
+        n_ext, n_rec, n_fix, n_run = (600, 150, 60, 11) if quick else (6000, 1500, 600, 100)
+        n_sys, n_tie = (110, 10) if quick else (1500, 100)
         out.rule = ("(a) synthetic: guillotine partitions of a die (2-7 cells, shuffled, sometimes sparse/overlapping), "
                     "1-8 modules mixing soft / movable hard (trunk + 0-3 branches, flip or not) / fixed (1-2 cells), solver "
                     "values satisfying the contract, with noise in fixed cells, exactly at / one ulp / 2^-30 next to 1 - t, "
@@ -921,17 +1018,27 @@ def run(ctx, out, replay=None):
                     "coincident; recenter on 0-4 rectangle modules; model.a tables on initial-like and stored allocations. "
                     "(b) real glbfloor runs: dies 4-8 x 4-6 with 0-3 blockages / fixed rectangles, 2-5 movable modules "
                     "(soft, hard, flip), nets and weighted hyperedges, alpha in {0,.3,.5,.7,1}, threshold in {.5,.8,.95}, "
-                    "max_iter 1-2, no refinement / split_refinable_regions / initial_grid. "
+                    "max_iter 1-2, no refinement / split_refinable_regions / initial_grid; module names renamed with "
+                    "prefix-related pools (H1 / H1_io / H1_x / H10 / H1_ / H1__0, names of GEKKO variables, rarely the "
+                    "internal name of a rectangle of a hard module); tie runs: area-1 soft modules centred in 2x2 / 2x1 cells "
+                    "next to a fixed strip, threshold 3/4, 1/2, 1 (ratio == 1 - threshold), alpha 1 / 0.9, parameters as ints. "
+                    "(c) system stream (no solve): fixrule-like instances, tie strips (ratios exactly t, 1-t, 0, 1, 1/4, 1/2), "
+                    "10-14 cells, hard modules with 11-12 rectangles, soft areas differing from their square, nets with 1-4 "
+                    "pins, six name pools, an earlier optimize_allocation on the same objects (other threshold) and centres "
+                    "re-assigned in place before the observed call. "
                     "non-trivial = at least two cells and two modules (three modules for runs); distinct by canonical hash")
         cases = []
         if replay and "case" in replay:
             cases.append(fr.unjson(replay["case"]))
         cases += fr.load_corpus("C10")
         rng = ctx.rng
-        cases += [gen_run(rng) for _ in range(n_run)]
+        cases += [cs.decorate_run(rng, gen_run(rng)) for _ in range(n_run)]
+        cases += [cs.gen_run_tie(rng) for _ in range(n_tie)]
+        cases += [cs.gen_system_case(rng) for _ in range(n_sys)]
         cases += [gen_extract(rng) for _ in range(n_ext)]
         cases += [gen_recenter(rng) for _ in range(n_rec)]
         cases += [gen_fixrule(rng) for _ in range(n_fix)]
+        cs.STATS.clear()
         stats = {"runs": 0, "returned": 0, "raised": 0, "invalid_input": 0, "iterations": 0, "solok_held": 0,
                  "solok_violated": 0, "solok_worst_excess": 0.0, "raised_kinds": {}, "solok_clauses": {}}
         inner = run_impl
@@ -963,6 +1070,7 @@ def run(ctx, out, replay=None):
         fr.run_cases(ctx, out, cases, run_and_monitor, to_coq, oracle, failure_key, HEADER,
                      dist_key=dist_key, nontrivial=nontrivial, shard=60, shrink=shrink)
         out.extra["solver_runs"] = stats
+        out.extra["constraint_systems"] = dict(cs.STATS)
         if stats["runs"] and not stats["returned"]:
             ctx.notes.append("no real glbfloor run returned in this environment (solver failures: "
                              f"{stats['raised_kinds']}); only the synthetic correspondence was exercised")
